@@ -336,3 +336,46 @@ def g_postsel(rng, level=0, n_random=300):
         if rng.integers(0, 3) == 0:
             ob = gs[int(rng.integers(0, N))].copy()
         yield {'gs_stb': gs, 'ps_stb': ps, 'gs_ob': ob, 'ps_ob': int(2 * rng.integers(0, 2))}
+
+
+@gen(U + 'stabilizer_projection_trace')
+def g_ptrace(rng, level=0, n_random=300):
+    for a in g_measure(rng, level, n_random):
+        yield a
+
+
+@gen(ST + 'StabilizerState.measure#list')
+def g_smeasure(rng, level=0, n_random=150):
+    pa, _ = _pc()
+    for a in g_measure(rng, level, n_random):
+        _, st = _pc()
+        s = st.StabilizerState(a['gs_stb'], ps=a['ps_stb'])
+        s.r = a['r']
+        yield {'self': s, 'obs': pa.PauliList(a['gs_obs'], a['ps_obs'])}
+
+
+@gen(ST + 'StabilizerState.postselect')
+def g_spostselect(rng, level=0, n_random=200):
+    pa, st = _pc()
+    for a in g_postsel(rng, level, n_random):
+        s = st.StabilizerState(a['gs_stb'], ps=a['ps_stb'])
+        s.r = 0 if rng.integers(0, 8) else 1
+        yield {'self': s, 'paulistring': pa.Pauli(a['gs_ob'], a['ps_ob']), 'postselect_res': int(rng.integers(0, 2))}
+
+
+@gen('pyclifford/circuit.py::MeasureLayer.forward')
+def g_mlayer(rng, level=0, n_random=150):
+    import pyclifford.circuit as ci
+    for _ in range(n_random):
+        N = int(rng.integers(1, 4))
+        q = tuple(rng.choice(N, size=int(rng.integers(1, N + 1)), replace=False).tolist())
+        yield {'self': ci.MeasureLayer(*q, N=N), 'obj': _rand_state(rng, N)}
+
+
+@gen(ST + 'StabilizerState.expect#state')
+def g_sexpect_state(rng, level=0, n_random=150):
+    for _ in range(n_random):
+        N = int(rng.integers(1, 4))
+        a = _rand_state(rng, N)
+        a.r = 0
+        yield {'self': a, 'obs': _rand_state(rng, N)}
